@@ -15,7 +15,7 @@ RULE = ("(c) schedules: for a tree whose 5 (quick) / 6 (thorough) files all pass
         "seam at a time, plus {identity, reverse}^4 across the seams, and the same for a tree with hard links next to a copy under "
         "--rf-under 3 / --rf-over 2 / --rf-under 2 (all 5! orders per seam); (a) every --threads spec name in {none, main, "
         "default, ssd} x (r,s) in {0,1,2,64}^2 and pairs main:x + default:y, and 8 large-pool specs x transforms using $IN / $OUT on a tree with equal base names in different directories; (b) every permutation of 3-4 roots and "
-        "--stdin, --stdin together with --transform (fclones starts child processes that inherit its descriptors: both orders of 'child runs' / 'fclones signals the child' at every signal the run sends, by pausing the subject at the kill call), and overlapping roots (r, r/sub) in both orders x walking-pool sizes x {--depth 1/2, --hidden, -L}; (d) hash function x --max-prefix-size x --max-suffix-size x disk kind x cache. A state is one complete "
+        "--stdin, --stdin together with --transform (fclones starts child processes that inherit its descriptors: both orders of 'child runs' / 'fclones signals the child' at every signal the run sends, by pausing the subject at the kill call), and overlapping roots (r, r/sub) in both orders x walking-pool sizes x {--depth 1/2, --hidden, -L}; (d) hash function x --max-prefix-size x --max-suffix-size x disk kind x cache, and a tree split over two devices (scratch fs + loop mount) with every pair of kinds in {ssd, hdd, unknown}^2 pinned per device. A state is one complete "
         "execution of the real binary under one schedule/configuration; transitions are the messages delivered at the "
         "seams. Invariant: report body (lengths, hashes, paths, order) byte-identical within (a)-(c); partition into "
         "groups identical within (d); every run ends within 120 s.")
@@ -96,6 +96,8 @@ def cases(tier, seed):
     for tr in (["--transform", "cat"], ["--transform", "head -c 1000000"], ["--transform", "cat $IN"],
                ["--transform", "fcv-tr keep - $OUT"]):
         out.append({"kind": "stdin_child", "tree": "multi", "args": tr})
+    # one tree spread over two devices (tmpfs scratch + loop-mounted ext4) whose kinds are pinned independently
+    out.append({"kind": "mixed_devices", "tree": "two_devices"})
     hashes = ["metro", "blake3"] if quick else ["metro", "xxhash", "blake3", "sha256", "sha512", "sha3-256", "sha3-512"]
     cfgs = []
     for h in hashes:
@@ -125,11 +127,24 @@ OVERLAP = [
 ]
 
 
+# identical pairs split across the two devices (r1 on the scratch fs, r2 on the loop mount), sizes around every prefix /
+# suffix threshold, plus near-duplicates that differ late
+TWO_DEVICES = []
+for i, L in enumerate((100, 4096, 4097, 12000, 16384, 16385, 20000, 65536, 70000)):
+    TWO_DEVICES += [{"p": "r1/a%d" % i, "k": "file", "c": ["base", L, i + 1]}, {"p": "r2/b%d" % i, "k": "file", "c": ["base", L, i + 1]}]
+    if L > 1:
+        TWO_DEVICES.append({"p": "r2/n%d" % i, "k": "file", "c": ["flip", L, i + 1, L - 1]})
+
+
 def tree_of(name):
+    if name == "two_devices":
+        return TWO_DEVICES
     return {"seam5": SEAM_TREE_5, "seam6": SEAM_TREE_6, "multi": MULTI, "seamlinks": SEAM_TREE_LINKS, "overlap": OVERLAP}[name]
 
 
 def roots_of(name):
+    if name == "two_devices":
+        return ["r1", "r2"]
     if name == "overlap":
         return ["r", "r/sub"]
     return ["r1", "r2", "r3", "r4"] if name == "multi" else ["r"]
@@ -146,11 +161,23 @@ def run(sc, args, env, stdin=b""):
 
 
 def evaluate(case):
+    if case["kind"] == "mixed_devices":
+        if not C.can_loop_mount():
+            return {"violations": [], "states": 0, "transitions": 1, "nontrivial": None, "outcome": "skipped_no_loop_mount"}
+        with C.Scratch() as sc:
+            os.makedirs(os.path.join(sc.tree, "r2"))
+            with C.LoopMount(os.path.join(sc.tree, "r2")) as lm:
+                return _evaluate(case, sc, os.path.join(sc.tree, "r2"))
+    with C.Scratch() as sc:
+        return _evaluate(case, sc, None)
+
+
+def _evaluate(case, sc, loop_mp):
     viol = []
     states = 0
     transitions = 0
     keys = []
-    with C.Scratch() as sc:
+    if True:
         C.make_tree(sc.tree, tree_of(case["tree"]))
         roots = case.get("args", []) + case.get("extra", []) + roots_of(case["tree"])
         env0 = {"FCLONES_VERIF_DISK_KIND": "ssd"}
@@ -274,6 +301,15 @@ def evaluate(case):
                     check("overlap:%s:%s:%s" % (" ".join(case["extra"]), " ".join(order), " ".join(spec)),
                           spec + case["extra"] + order, env0, "overlapping_roots")
                     transitions += 1
+        elif case["kind"] == "mixed_devices":
+            # the scratch file system is found through the mount point '/', the loop mount through its own
+            kinds = ("ssd", "hdd", "unknown")
+            for k1 in kinds:
+                for k2 in kinds:
+                    for extra in ([], ["--max-prefix-size", "8192"], ["--hash-fn", "blake3"]):
+                        env = {"FCLONES_VERIF_DISK_KIND": k1, "FCLONES_VERIF_DISK_KIND_AT": "%s=%s" % (k2, loop_mp)}
+                        check("mixed:%s:%s:%s" % (k1, k2, " ".join(extra)), extra + roots, env, "device_kinds", partition_only=True)
+                        transitions += 1
         elif case["kind"] == "config":
             for args, disk in case["cfgs"]:
                 rep = 2 if "--cache" in args else 1
@@ -288,6 +324,9 @@ def evaluate(case):
 
 def finish(stats, tier):
     out = []
+    from .. import common as C2
+    if C2.can_loop_mount() and not stats["outcomes"].get("mixed_devices"):
+        out.append("no mixed_devices case ran")
     for k in ("seam", "cross_seam", "threads", "roots", "config", "overlap", "stdin_child"):
         if not stats["outcomes"].get(k):
             out.append("no %s case ran" % k)
